@@ -61,6 +61,9 @@ def gen(tier, seed):
             for kl in (0, 1, maxk - 1, maxk):
                 for n in (0, 1, bs - 1, bs, bs + 1, 2 * bs, 2 * bs + 1, 300):
                     yield '%s %d %s %s #rnd' % (name, ol, rng.data(kl), rng.data(n))
+    else:
+        for v in ('sha1', 'sha256', 'ripemd160'):
+            yield 'hash %s %%%d:4093:%d #huge' % (v, rng.below(1000), (1 << 29) + rng.below(64))
     if thorough:
         # bit-length field passing 2^32 (> 512 MiB) for the 64-byte-block Merkle-Damgard functions, and a 4 GiB+ BLAKE2s
         for v in ('sha1', 'sha256', 'ripemd160', 'sha224'):
